@@ -164,3 +164,41 @@ func vhPayloadMax() int {
 	}
 	return 10
 }
+
+// VH_C20_credentials_exact: the comparison itself. The header is "Basic " + base64 of a text that is the
+// configured login:password with ONE byte replaced by any byte, or with one extra byte in front, behind, or
+// next to the colon: the handler runs iff the decoded text equals login:password exactly (no case folding, no
+// trimming, no prefix match).
+func VH_C20_credentials_exact() {
+	vrt.Unwind(400)
+	login, pass := "Admin", "s3cret"
+	right := login + ":" + pass
+	text := []byte(right)
+	switch vrt.Choice("variation", 4) {
+	case 0: // one byte replaced
+		i := vrt.Choice("position", len(right))
+		text[i] = vrt.Byte("replacement")
+	case 1: // one byte in front
+		text = append([]byte{vrt.Byte("extra")}, text...)
+	case 2: // one byte behind
+		text = append(text, vrt.Byte("extra"))
+	default: // one byte next to the colon
+		b := vrt.Byte("extra")
+		text = append(append(append([]byte{}, right[:len(login)+1]...), b), right[len(login)+1:]...)
+	}
+	auth := "Basic " + base64.StdEncoding.EncodeToString(text)
+	called := 0
+	next := http.HandlerFunc(func(w http.ResponseWriter, r *http.Request) { called++ })
+	h := BasicAuthMiddleware(login, pass)(next)
+	w := &vhWriter{hdr: http.Header{}}
+	r := &http.Request{Header: http.Header{"Authorization": []string{auth}}}
+	h.ServeHTTP(w, r)
+	if string(text) == right {
+		vrt.Assert(called == 1, "right-credentials-pass")
+		vrt.Reach("pass")
+		return
+	}
+	vrt.Assert(called == 0, "handler-not-entered-without-exact-credentials")
+	vrt.Assert(w.code == 401 || w.code == 400, "rejected-with-401-or-400")
+	vrt.Reach("reject")
+}
